@@ -112,6 +112,8 @@ class TLCResult:
         self.kind = "ok"          # ok | invariant | action | temporal | deadlock | postcondition | assumption | error | timeout
         self.wall = 0.0
         self.last_state = {}
+        self.hw = 0               # high-water mark of the trace position (trace specs with silent steps)
+        self.conforming = -1      # number of traces the model followed to their end
 
     def ok(self):
         return self.kind == "ok"
@@ -193,6 +195,10 @@ def tlc(module, cfg, files=None, workers=None, timeout=600, args=None, keep=None
             r.kind = "error"
         if r.kind in ("invariant", "action", "deadlock", "temporal"):
             r.last_state = _parse_last_state(out)
+        for m in re.finditer(r'<<"HW", (\d+)>>', out):
+            r.hw = max(r.hw, int(m.group(1)))
+        for m in re.finditer(r'<<"CONFORMING", (\d+)>>', out):
+            r.conforming = int(m.group(1))
         if keep:
             for name in keep:
                 p = os.path.join(work, name)
@@ -370,9 +376,11 @@ class TraceCheck:
         self.failures = []   # (invariant, replay_path, detail)
         self.incomplete = [] # chunks that TLC did not consume completely (tool trouble / model not enabled)
         self.wall = 0.0
+        self.conforming = 0  # traces the implementation-shaped model followed to the end (-1 per chunk = n/a)
 
 
-def validate_trace_parallel(module, cfg, trace_path, pid, nchunks=None, timeout=900, tag="", extra_files=None):
+def validate_trace_parallel(module, cfg, trace_path, pid, nchunks=None, timeout=900, tag="", extra_files=None,
+                            accept="depth"):
     """Validate a (multi-)trace. A chunk is accepted when TLC reports no violation and its search depth
     equals lines+1 (every line consumed, one state per line)."""
     from concurrent.futures import ThreadPoolExecutor
@@ -396,10 +404,12 @@ def validate_trace_parallel(module, cfg, trace_path, pid, nchunks=None, timeout=
         for idx, (path, n, r, line) in enumerate(results):
             tc.lines += n
             tc.states += r.distinct
+            if r.conforming >= 0:
+                tc.conforming += r.conforming
             if r.kind in ("invariant", "action"):
                 rp = cut_replay(path, line, pid, suffix="%s-c%d" % (tag, idx))
                 tc.failures.append((r.violated, rp, "line %d of chunk %d" % (line, idx)))
-            elif r.kind != "ok" or r.depth != n + 1:
+            elif r.kind != "ok" or (accept == "depth" and r.depth != n + 1) or (accept == "hw" and r.hw != n + 1):
                 tc.incomplete.append("chunk %d: kind=%s depth=%d lines=%d\n%s" % (idx, r.kind, r.depth, n, r.out[-1500:]))
     finally:
         shutil.rmtree(work, ignore_errors=True)
